@@ -115,10 +115,10 @@ def ensure_facts(verbose=True):
         open(done, "w").write("%.1f\n" % (time.time() - t0))
         if verbose:
             sys.stderr.write("[facts] extracted %s in %.1fs\n" % (key, time.time() - t0))
-        # keep only the three most recent fact sets
+        # keep only the six most recent fact sets (several trees may be under analysis at once)
         root = os.path.join(CACHE, "facts")
         ds = sorted((os.path.getmtime(os.path.join(root, d)), d) for d in os.listdir(root))
-        for _, d in ds[:-3]:
+        for _, d in ds[:-6]:
             shutil.rmtree(os.path.join(root, d), ignore_errors=True)
         return out
     finally:
